@@ -8,11 +8,12 @@ comparisons and `and`/`or`/`not` are `bool`, `Count` is `int`, `Sum` has the ele
 rules `ast_to_cpp_translator.py` implements (`visit_BinOp` + `most_accurate_type`, `visit_IfExp`,
 `visit_Compare`, `visit_BoolOp`, the accumulator typing of `Aggregate`, func_adl's Count/Sum/Min/Max
 shortcuts) wherever those agree with what Python computes. Where they do not, the model follows
-Python: `-b` on a boolean is `int` and `not x` is `bool` (the translator keeps the operand's type);
-`and`/`or` are typed on boolean operands only and a conditional on numeric arms only (on other
-operands the translator's `bool` / `double` is not the type of Python's value) — see the
-`_counterexample` theorems in `C03/TheoremsTyping.lean`. An `.error` means: the rules assign no
-column type (also where the translator itself refuses: arithmetic on a boolean, `Sum` of booleans).
+Python: `-b` on a boolean is `int` (the translator keeps the operand's type `bool`); `and`/`or` are
+typed on boolean operands only and a conditional on numeric arms only (on other operands the
+translator's `bool` / `double` is not the type of Python's value) — see the `_counterexample`
+theorems in `C03/TheoremsTyping.lean`. `not x` is `bool` for every scalar `x`, here and (since fix
+ea7911a) in the translator. An `.error` means: the rules assign no column type (also where the
+translator itself refuses: arithmetic on a boolean, `Sum` of booleans, a conditional with a string arm).
 
 `finalColumns` / `finalColumnsLabeled` are the schema of the tree: names (dict keys | `col1` |
 `col0…` | the labels given to ResultTTree) and types of the final expression.
@@ -112,6 +113,7 @@ def negTy : CTy → Except String CTy
   | .bool => .ok .int
   | _ => .error "operand of unary - is not a scalar"
 
+/-- `visit_UnaryOp` for `not`: `bool` whatever the operand's type -/
 def notTy (a : CTy) : Except String CTy :=
   if a.isScalar then .ok .bool else .error "operand of not is not a scalar"
 
@@ -121,7 +123,8 @@ def boolOpTy (a b : CTy) : Except String CTy :=
   | .bool, .bool => .ok .bool
   | _, _ => .error "operands of and/or are not boolean"
 
-/-- `visit_IfExp`: always `double` (numeric arms) -/
+/-- `visit_IfExp`: always `double`; typed on numeric arms (a string arm is refused by the translator, a boolean arm
+is stored as a double there: no type here) -/
 def iteTy (c a b : CTy) : Except String CTy :=
   if c.isScalar then
     if a.isNum && b.isNum then .ok .double else .error "arms of a conditional are not numbers"
